@@ -80,6 +80,7 @@ type Engine struct {
 	models  []*cachedModel
 	NoModelCache bool
 	ModelHits int
+	chooseTrace []string
 	Completed int
 
 	// exploration
@@ -302,6 +303,25 @@ func (e *Engine) chooseAmong(conds []*Term, what string) int {
 	e.pos++
 	e.pcAssert(conds[feas[0]])
 	return feas[0]
+}
+
+// logged runs f once per path position and records its (deterministic-on-replay) answer.
+func (e *Engine) logged(f func() int) int {
+	if e.spec > 0 {
+		panic(specAbort{})
+	}
+	if e.Concrete {
+		return 0
+	}
+	if !e.live() {
+		ent := &e.log[e.pos]
+		e.pos++
+		return ent.choice
+	}
+	v := f()
+	e.log = append(e.log, logEntry{choice: v, level: e.solver.Level()})
+	e.pos++
+	return v
 }
 
 // chooseFree forks n ways unconditionally.
@@ -592,6 +612,12 @@ func (e *Engine) assertObl(fr *frame, c *Term, label string, kf string, kfCond *
 		e.Samples = append(e.Samples, fmt.Sprintf("; obligation %q in %s: path condition and negated assertion\n%s", label, e.Harness, s))
 	}
 	var res string
+	tq := time.Now()
+	defer func() {
+		if d := time.Since(tq); d > 3*time.Second {
+			fmt.Fprintf(os.Stderr, "[%s] slow obligation %q: %.1fs (%s) choices=%v\n", e.Harness, label, d.Seconds(), res, e.chooseTrace)
+		}
+	}()
 	if kf != "" && kfCond != nil {
 		r1 := record(e.tt.Not(kfCond), "")
 		r2 := "unsat"
@@ -620,13 +646,14 @@ func (e *Engine) assertObl(fr *frame, c *Term, label string, kf string, kfCond *
 	default:
 		e.Inconclusive = append(e.Inconclusive, fmt.Sprintf("obligation %q: solver answered %s", label, res))
 	}
-	// continue the path under the asserted condition
+	// continue the path under the asserted condition (a discharged obligation is
+	// already implied by the path condition and is not added again)
 	if res != "unsat" {
 		if !e.feasible(c) {
 			panic(pathAbort{"assertion cannot hold on this path"})
 		}
+		e.pcAssert(c)
 	}
-	e.pcAssert(c)
 }
 
 // crossCheck re-asks a discharged obligation of the other solvers (thorough tier).
@@ -684,6 +711,7 @@ func (e *Engine) beginPath() {
 	e.trailOn = true
 	e.allocLog = e.allocLog[:0]
 	e.spec = 0
+	e.chooseTrace = e.chooseTrace[:0]
 }
 
 // backtrack prepares the log for the next path; false when exploration is done.
